@@ -647,4 +647,186 @@ theorem C06_max (e : Env) (val : Val) (h : Feasible e val) (as : List Nat) (hne 
     rw [← hv0e]
     exact isInt_of_commonType e val h as hi v0 hv0
 
+/-! ## and / or: fixed-argument elimination -/
+
+theorem val_le_zero_of_ub {b : ER} {x : Rat} (h : le b (fin 0) = true) (hu : ubOK b x) : x ≤ 0 := by
+  cases b with
+  | fin q => rw [le_fin] at h; simp only [ubOK] at hu; have := of_decide_eq_true h; linarith
+  | ninf => simp [ubOK] at hu
+  | pinf => simp [le, ER.lt, ER.eq] at h
+  | nan => simp [ubOK] at hu
+theorem one_le_val_of_lb {b : ER} {x : Rat} (h : le (fin 1) b = true) (hl : lbOK b x) : 1 ≤ x := by
+  cases b with
+  | fin q => rw [le_fin] at h; simp only [lbOK] at hl; have := of_decide_eq_true h; linarith
+  | pinf => simp [lbOK] at hl
+  | ninf => simp [le, ER.lt, ER.eq] at h
+  | nan => simp [lbOK] at hl
+theorem val_pos_of_not_lb {b : ER} {x : Rat} (h : ¬ le b (fin 0) = true) (hl : lbOK b x) : 0 < x := by
+  cases b with
+  | fin q => rw [le_fin] at h; simp only [lbOK] at hl; have : ¬ q ≤ 0 := fun hq => h (decide_eq_true hq); linarith [not_le.mp this]
+  | pinf => simp [lbOK] at hl
+  | ninf => simp [le, ER.lt, ER.eq] at h
+  | nan => simp [lbOK] at hl
+theorem val_lt_one_of_not_ub {b : ER} {x : Rat} (h : ¬ le (fin 1) b = true) (hu : ubOK b x) : x < 1 := by
+  cases b with
+  | fin q => rw [le_fin] at h; simp only [ubOK] at hu; have : ¬ 1 ≤ q := fun hq => h (decide_eq_true hq); linarith [not_le.mp this]
+  | ninf => simp [ubOK] at hu
+  | pinf => simp [le, ER.lt, ER.eq] at h
+  | nan => simp [ubOK] at hu
+
+/-- a binary variable (`is_binary_var`) takes the value 0 or 1 -/
+theorem binary_val (e : Env) (val : Val) (h : Feasible e val) (v : Nat) (hb : isBinaryVar e v = true) :
+    val v = 0 ∨ val v = 1 := by
+  obtain ⟨hl, hu, hi⟩ := h v
+  simp only [isBinaryVar, isFixed, Bool.or_eq_true, Bool.and_eq_true] at hb
+  cases hlb : (e v).lb with
+  | fin p =>
+    cases hub : (e v).ub with
+    | fin q =>
+      rw [hlb] at hl hb; rw [hub] at hu hb
+      simp only [ER.eq, decide_eq_true_eq, lbOK, ubOK] at hb hl hu
+      rcases hb with ⟨⟨h0, h1⟩, hint⟩ | ⟨hf, h01⟩
+      · obtain ⟨z, hz⟩ := hi hint
+        rw [hz] at hl hu ⊢
+        have a0 : (0 : Int) ≤ z := by exact_mod_cast (by linarith : (0 : Rat) ≤ z)
+        have a1 : z ≤ (1 : Int) := by exact_mod_cast (by linarith : (z : Rat) ≤ 1)
+        rcases (by omega : z = 0 ∨ z = 1) with rfl | rfl <;> simp
+      · have : val v = p := le_antisymm (by linarith) hl
+        rcases h01 with h01 | h01
+        · left; linarith
+        · right; linarith
+    | ninf => rw [hub] at hu; simp [ubOK] at hu
+    | nan => rw [hub] at hu; simp [ubOK] at hu
+    | pinf => rw [hlb, hub] at hb; simp [ER.eq] at hb
+  | ninf => rw [hlb] at hb; simp [ER.eq] at hb
+  | pinf => rw [hlb] at hl; simp [lbOK] at hl
+  | nan => rw [hlb] at hl; simp [lbOK] at hl
+
+theorem all_filter_of_imp {α} (l : List α) (p q : α → Bool) (h : ∀ x ∈ l, q x = false → p x = true) :
+    l.all p = (l.filter q).all p := by
+  induction l with
+  | nil => rfl
+  | cons a l ih =>
+    have ih' := ih (fun x hx => h x (List.mem_cons_of_mem _ hx))
+    by_cases hq : q a = true
+    · simp [List.filter_cons, hq, ih']
+    · have hq' : q a = false := by simpa using hq
+      have := h a (by simp) hq'
+      simp [List.filter_cons, hq', this, ih']
+
+theorem any_filter_of_imp {α} (l : List α) (p q : α → Bool) (h : ∀ x ∈ l, q x = false → p x = false) :
+    l.any p = (l.filter q).any p := by
+  induction l with
+  | nil => rfl
+  | cons a l ih =>
+    have ih' := ih (fun x hx => h x (List.mem_cons_of_mem _ hx))
+    by_cases hq : q a = true
+    · simp [List.filter_cons, hq, ih']
+    · have hq' : q a = false := by simpa using hq
+      have := h a (by simp) hq'
+      simp [List.filter_cons, hq', this, ih']
+
+
+/-- **and**: result fixed at 0 if some argument is fixed at 0, at 1 if all are fixed at 1; arguments fixed at 1 are
+dropped; in every case the bounds `[0,1]`/INTEGER (or the fixed value) contain the truth value and the rewritten
+constraint has the same value — for binary arguments (the C++ asserts `is_binary_var`). -/
+theorem C06_and (e : Env) (val : Val) (h : Feasible e val) (as : List Nat)
+    (hbin : ∀ v ∈ as, isBinaryVar e v = true) :
+    (preproAnd0 e as).1.Contains (Con.eval tr trp val (.and as)) ∧
+    Con.eval tr trp val (.and (preproAnd0 e as).2) = Con.eval tr trp val (.and as) := by
+  unfold preproAnd0
+  simp only []
+  have e1 : (countFixed01 e as).1 = (as.filter fun x => le (e x).ub (fin 0)).length := rfl
+  have e2 : (countFixed01 e as).2 = (as.filter fun x => le (fin 1) (e x).lb).length := rfl
+  by_cases h1 : (countFixed01 e as).1 ≠ 0
+  · rw [if_pos h1]
+    rw [e1] at h1
+    refine ⟨?_, rfl⟩
+    obtain ⟨x, hx⟩ := List.exists_mem_of_length_pos (Nat.pos_of_ne_zero h1)
+    rw [List.mem_filter] at hx
+    have hx0 : val x ≤ 0 := val_le_zero_of_ub hx.2 (h x).2.1
+    have : (as.all fun v => truthy (val v)) = false := by
+      rw [List.all_eq_false]; exact ⟨x, hx.1, by simp [truthy]; linarith⟩
+    simp only [Con.eval, this]; exact pre00.1
+  · rw [if_neg h1]
+    by_cases h2 : as.length = (countFixed01 e as).2
+    · rw [if_pos h2]
+      rw [e2] at h2
+      refine ⟨?_, rfl⟩
+      have hall : ∀ x ∈ as, le (fin 1) (e x).lb = true := by
+        have := (List.length_filter_eq_length_iff).mp h2.symm
+        simpa using this
+      have : (as.all fun v => truthy (val v)) = true := by
+        rw [List.all_eq_true]; intro x hx
+        have := one_le_val_of_lb (hall x hx) (h x).1
+        simp [truthy]; linarith
+      simp only [Con.eval, this]; exact pre11.1
+    · rw [if_neg h2]
+      by_cases h3 : (countFixed01 e as).2 ≠ 0
+      · rw [if_pos h3]
+        constructor
+        · simpa [Con.eval] using preBool_contains_b2r _
+        · simp only [Con.eval]
+          congr 1
+          symm
+          apply all_filter_of_imp
+          intro x hx hq
+          have hq' : ¬ le (e x).lb (fin 0) = true := by simpa using hq
+          have hpos := val_pos_of_not_lb hq' (h x).1
+          rcases binary_val e val h x (hbin x hx) with h0 | h0
+          · linarith
+          · simp [truthy, h0]; norm_num
+      · rw [if_neg h3]
+        exact ⟨by simpa [Con.eval] using preBool_contains_b2r _, rfl⟩
+
+/-- **or**: dual of `C06_and`. -/
+theorem C06_or (e : Env) (val : Val) (h : Feasible e val) (as : List Nat)
+    (hbin : ∀ v ∈ as, isBinaryVar e v = true) :
+    (preproOr0 e as).1.Contains (Con.eval tr trp val (.or as)) ∧
+    Con.eval tr trp val (.or (preproOr0 e as).2) = Con.eval tr trp val (.or as) := by
+  unfold preproOr0
+  simp only []
+  have e1 : (countFixed01 e as).1 = (as.filter fun x => le (e x).ub (fin 0)).length := rfl
+  have e2 : (countFixed01 e as).2 = (as.filter fun x => le (fin 1) (e x).lb).length := rfl
+  by_cases h1 : (countFixed01 e as).2 ≠ 0
+  · rw [if_pos h1]
+    rw [e2] at h1
+    refine ⟨?_, rfl⟩
+    obtain ⟨x, hx⟩ := List.exists_mem_of_length_pos (Nat.pos_of_ne_zero h1)
+    rw [List.mem_filter] at hx
+    have hx1 : 1 ≤ val x := one_le_val_of_lb hx.2 (h x).1
+    have : (as.any fun v => truthy (val v)) = true := by
+      rw [List.any_eq_true]; exact ⟨x, hx.1, by simp [truthy]; linarith⟩
+    simp only [Con.eval, this]; exact pre11.1
+  · rw [if_neg h1]
+    by_cases h2 : as.length = (countFixed01 e as).1
+    · rw [if_pos h2]
+      rw [e1] at h2
+      refine ⟨?_, rfl⟩
+      have hall : ∀ x ∈ as, le (e x).ub (fin 0) = true := by
+        have := (List.length_filter_eq_length_iff).mp h2.symm
+        simpa using this
+      have : (as.any fun v => truthy (val v)) = false := by
+        rw [List.any_eq_false]; intro x hx
+        have := val_le_zero_of_ub (hall x hx) (h x).2.1
+        simp [truthy]; linarith
+      simp only [Con.eval, this]; exact pre00.1
+    · rw [if_neg h2]
+      by_cases h3 : (countFixed01 e as).1 ≠ 0
+      · rw [if_pos h3]
+        constructor
+        · simpa [Con.eval] using preBool_contains_b2r _
+        · simp only [Con.eval]
+          congr 1
+          symm
+          apply any_filter_of_imp
+          intro x hx hq
+          have hq' : ¬ le (fin 1) (e x).ub = true := by simpa using hq
+          have hlt := val_lt_one_of_not_ub hq' (h x).2.1
+          rcases binary_val e val h x (hbin x hx) with h0 | h0
+          · simp [truthy, h0]
+          · linarith
+      · rw [if_neg h3]
+        exact ⟨by simpa [Con.eval] using preBool_contains_b2r _, rfl⟩
+
 end MpVerif.C06
